@@ -8,7 +8,7 @@ CONSTANTS
   Sels1 = {"none"}
   Attrs2 = {}
   Len2 = 1
-  Kinds = {"define", "print", "invalid", "loop"}
+  Kinds = {"define", "print", "comment", "write_file", "invalid", "loop"}
   LoopForms = {{"collection", "variable", "body"}, {"map", "key", "body"}, {"map", "body"}}
   ReqKeys = {"name/p=x", "parent%project"}
   MaxReq = 1
